@@ -266,7 +266,7 @@ fn png_c1_k3_b8<const KF: usize>() { png_rt::<KF, 1, 3, 8, 3, 3, 8>(p_c1_k3_b8::
 fn png_c2_k1_b16<const KF: usize>() { png_rt::<KF, 2, 1, 16, 4, 2, 10>(p_c2_k1_b16::dict) }
 // @ob id=png_c8_k1_b1 unwind=9 unwindset="key_id.0:24,key_id.1:36" stubs=fmt,vec,params:p_c8_k1_b1 tier=thorough timeout=1500 mem=32 bound="PNG predictors 10-15, Columns 8, Colors 1, 1 bit (bpp 1, packed): 2 rows x 1 byte"
 fn png_c8_k1_b1<const KF: usize>() { png_rt::<KF, 8, 1, 1, 1, 1, 4>(p_c8_k1_b1::dict) }
-// @ob id=png_c3_k4_b4 unwind=9 unwindset="key_id.0:24,key_id.1:36" stubs=fmt,vec,params:p_c3_k4_b4 tier=thorough timeout=1500 mem=32 bound="PNG predictors 10-15, Columns 3, Colors 4, 4 bit (bpp 2, row = 6 bytes): 2 rows"
+// @ob id=png_c3_k4_b4 unwind=9 unwindset="key_id.0:24,key_id.1:36" stubs=fmt,vec,params:p_c3_k4_b4 tier=quick timeout=1800 mem=32 bound="PNG predictors 10-15, Columns 3, Colors 4, 4 bit (bpp 2, row = 6 bytes): 2 rows"
 fn png_c3_k4_b4<const KF: usize>() { png_rt::<KF, 3, 4, 4, 6, 2, 14>(p_c3_k4_b4::dict) }
 
 // ---------------------------------------------------------------- TIFF predictor 2 (8-bit)
